@@ -4,7 +4,7 @@
    result shape = kept sizes ++ new sizes, values handed on, nothing stored -> the empty tensor of that shape). *)
 From Coq Require Import List ZArith Bool.
 From PV Require Import Np.NpZ Np.NpZ2 Np.NpZ3 Np.NpZ3c Np.NpZ3d Np.NpZ3e Np.NpZ4 Np.NpZ4b Np.NpZ4e Gen.GenUtils Gen.GenSptensor4d
-  Model.W4Reshape Proofs.W4Reshape.
+  Model.W4Reshape Proofs.W4Reshape Base.Index Base.Perm Model.Sparse Model.C07Ops Proofs.NpZProofs Proofs.W4ReshapeModel.
 Import ListNotations.
 Local Open Scope Z_scope.
 
@@ -34,6 +34,42 @@ Theorem C07_gen_sp_reshape_result : forall (self t : sptz) (new_shape : vec) (ol
         /\ spt_make_ok (spt_subs t) (spt_vals t) (spt_shape t) = true).
 Proof. exact gen_sp_reshape_result. Qed.
 Print Assumptions C07_gen_sp_reshape_result.
+
+(* old_modes = None is the request for all modes in order *)
+Theorem C07_gen_sp_reshape_none : forall (self : sptz) (new_shape : vec),
+  sptensor_reshape self new_shape None = sptensor_reshape self new_shape (Some (np_arange 0 (zlen (spt_shape self)))).
+Proof. exact gen_sp_reshape_none. Qed.
+Print Assumptions C07_gen_sp_reshape_none.
+
+(* on a well-formed record with stored entries the generated method IS C07's hand model reshape_sp (Model/C07Ops.v) *)
+Theorem C07_gen_sp_reshape_model : forall (S : sparse Z) (s' : shape) (old : list nat),
+  ssubs S <> [] -> Forall (fun j => inb (sshape S) j = true) (ssubs S) -> length (svals S) = length (ssubs S) ->
+  Forall (fun k => (k < length (sshape S))%nat) old -> old <> [] -> s' <> [] ->
+  sptensor_reshape (of_Sp S) (zs s') (Some (zs old)) =
+    match reshape_sp S s' old with Some R => Ok (of_Sp R) | None => Err end.
+Proof. exact gen_sp_reshape_model. Qed.
+Print Assumptions C07_gen_sp_reshape_model.
+
+Theorem C07_gen_sp_reshape_model_all : forall (S : sparse Z) (s' : shape),
+  ssubs S <> [] -> Forall (fun j => inb (sshape S) j = true) (ssubs S) -> length (svals S) = length (ssubs S) ->
+  sshape S <> [] -> s' <> [] ->
+  sptensor_reshape (of_Sp S) (zs s') None = match reshape_sp_all S s' with Some R => Ok (of_Sp R) | None => Err end.
+Proof. exact gen_sp_reshape_model_all. Qed.
+Print Assumptions C07_gen_sp_reshape_model_all.
+
+(* ... hence C07's index theorem for the generated method *)
+Theorem C07_gen_sp_reshape_den : forall (S : sparse Z) (s' : shape) (old : list nat),
+  ssubs S <> [] -> Forall (fun j => inb (sshape S) j = true) (ssubs S) -> length (svals S) = length (ssubs S) ->
+  Forall (fun k => (k < length (sshape S))%nat) old -> old <> [] -> s' <> [] ->
+  size s' = size (pick 0%nat old (sshape S)) ->
+  exists R, sptensor_reshape (of_Sp S) (zs s') (Some (zs old)) = Ok (of_Sp R) /\
+    sshape R = pick 0%nat (keep_modes (length (sshape S)) old) (sshape S) ++ s' /\ svals R = svals S /\
+    (forall i, inb (sshape S) i = true ->
+       inb (sshape R) (reshape_row (sshape S) s' old i) = true /\
+       den_sp 0 R (reshape_row (sshape S) s' old i) = den_sp 0 S i) /\
+    (forall i', (forall i, inb (sshape S) i = true -> reshape_row (sshape S) s' old i <> i') -> den_sp 0 R i' = 0).
+Proof. exact gen_sp_reshape_den. Qed.
+Print Assumptions C07_gen_sp_reshape_den.
 
 Example C07_gen_sp_reshape_example :
   sptensor_reshape (mkspt [[0; 1; 3]; [2; 0; 1]] [5; -7] [3; 2; 4]) [6; 4] None = Ok (mkspt [[3; 3]; [2; 1]] [5; -7] [6; 4]) /\
